@@ -74,6 +74,13 @@ Proof.
   - intros target start ops Ho Hs Hk. destruct (C15.C15_suffix target start ops Ho Hs Hk) as (r & Hr & _).
     exists r. exact Hr.
 Qed.
+Check C04_no_panic_form_urlencoded :
+  (forall bs, FormUrlencoded.parse_next bs <> FormUrlencoded.PFuel
+              /\ FormUrlencoded.parse bs = Some (C15_Parse.parse_spec bs)
+              /\ exists cs, FormUrlencoded.bser_chunks bs = Outcome_c15.Ok cs)
+  /\ (forall target start ops, Forall C15_Ser.op_ok ops -> start <= nlen target ->
+        ~ C15_Main.Known_C15_1 target start ops ->
+        exists result, C15_Main.str_session target start ops = Outcome_c15.Ok result).
 Print Assumptions C04_no_panic_form_urlencoded.
 
 (* data-url: the slice-panic outcome of the body decoders is unreachable for EVERY sink; the base64
@@ -91,6 +98,12 @@ Proof.
           (C04_NoPanic.data_url_decode_no_panic write base64 w body))).
   - exact (proj1 C19.C19_total).
 Qed.
+Check C04_no_panic_data_url :
+  (forall (W E : Type) (write : W -> list N -> W * option E) base64 w body,
+     snd (Base64.decode_without_base64 write w body) <> Base64.BodyPanic
+     /\ snd (Base64.decode_with_base64 write w body) <> Base64.BodyPanic
+     /\ snd (Base64.data_url_decode write base64 w body) <> Base64.BodyPanic)
+  /\ (forall s, usv_list s -> exists r, Mime.parse s = Mime.Ok r).
 Print Assumptions C04_no_panic_data_url.
 
 (* idna::punycode: encoders never panic; decoders never panic outside Known_C13_2 (finding F-C13-2:
@@ -107,6 +120,12 @@ Proof.
   - intros p Hk site. destruct (Hd p Hk) as (H1 & H2 & _). exact (conj (H1 site) (H2 site)).
   - intros it p Hk site. exact (C13.C13_safe_internal_decoder cfg it p Hk site).
 Qed.
+Check C04_no_panic_punycode : forall cfg,
+  (forall s site, Punycode.encode cfg s <> U32_c13.Panic site /\ Punycode.encode_str cfg s <> U32_c13.Panic site)
+  /\ (forall p, ~ C13_Known.Known_C13_2 p ->
+        forall site, Punycode.decode cfg p <> U32_c13.Panic site
+                     /\ Punycode.decode_to_string cfg p <> U32_c13.Panic site)
+  /\ (forall it p, ~ C13_Known.Known_C13_2 p -> forall site, Punycode.decode_with cfg it p <> U32_c13.Panic site).
 Print Assumptions C04_no_panic_punycode.
 
 (* idna::uts46.  Full statement (not proved): outside Known_C11 (finding F-C11-2: the debug assertion
@@ -124,6 +143,9 @@ Proof.
   intros A cfg d deny hy p Hb H.
   exact (conj (Idna_Api.to_ascii_fast A cfg d deny hy H) (Idna_Api.to_ui_fast A cfg d deny hy p H)).
 Qed.
+Check C04_no_panic_uts46_partial : forall A cfg d deny hy p, bytes d -> Uts46.fast_tier d d = None ->
+  Uts46.to_ascii A cfg d deny hy Uts46.DIgnore = U32_c13.Ok (true, d)
+  /\ Uts46.to_user_interface A cfg d deny hy p = Uts46.UI true d false.
 Print Assumptions C04_no_panic_uts46_partial.
 
 (* Host::parse / Host::parse_opaque (proved for every input that is not a '['-led literal) *)
@@ -131,6 +153,9 @@ Theorem C04_no_panic_host :
   (forall idna input, Host.starts_with 91 input = false -> C09_Reject.no_panic (Host.host_parse_x idna input))
   /\ (forall input, Host.starts_with 91 input = false -> C09_Reject.no_panic (Host.host_parse_opaque_x input)).
 Proof. exact C09.C09_total_partial. Qed.
+Check C04_no_panic_host :
+  (forall idna input, Host.starts_with 91 input = false -> C09_Reject.no_panic (Host.host_parse_x idna input))
+  /\ (forall input, Host.starts_with 91 input = false -> C09_Reject.no_panic (Host.host_parse_opaque_x input)).
 Print Assumptions C04_no_panic_host.
 
 (* Url accessors and Position slicing on a record satisfying wf_b, both configurations *)
@@ -149,6 +174,13 @@ Proof.
   - destruct (C03.C03_concat dbg u H) as (sch & un & pw & hs & pth & q & f & H1 & H2 & H3 & H4 & H5 & H6 & H7 & _).
     exists sch, un, pw, hs, pth, q, f. tauto.
 Qed.
+Check C04_no_panic_accessors : forall dbg u, wf_b u = true ->
+  (forall p, exists i, Setters.position_index dbg u p = Some i /\ i <= nlen (ser u))
+  /\ (forall p q, (C03_WF.pos_rank p <= C03_WF.pos_rank q)%nat -> exists s, Setters.index_range dbg u p q = Some s)
+  /\ (forall p, exists s t, Setters.index_to dbg u p = Some s /\ Setters.index_from dbg u p = Some t)
+  /\ (exists sch un pw hs pth q f,
+        scheme u = Some sch /\ username dbg u = Some un /\ password dbg u = Some pw /\ host_str u = Some hs
+        /\ path u = Some pth /\ query dbg u = Some q /\ fragment dbg u = Some f).
 Print Assumptions C04_no_panic_accessors.
 
 (* Url setters on a well-formed record (wfh = wf_b + host text invariant), both configurations.
@@ -161,6 +193,13 @@ Theorem C04_no_panic_setters : forall dbg u, C06_Main.wfh u ->
   /\ (forall un, exists r, Setters.set_username dbg u un = Some r)
   /\ (forall s, exists r, Setters.set_scheme dbg u s = Some r).
 Proof. exact C06.C06_nopanic. Qed.
+Check C04_no_panic_setters : forall dbg u, C06_Main.wfh u ->
+  (forall f, exists u', Setters.set_fragment dbg u f = Some u')
+  /\ (forall q, C06_Main.str_arg_ok q -> exists u', Setters.set_query dbg u q = Some u')
+  /\ (forall p, C06_Main.port_arg_ok p -> exists r, Setters.set_port dbg u p = Some r)
+  /\ (forall pw, exists r, Setters.set_password dbg u pw = Some r)
+  /\ (forall un, exists r, Setters.set_username dbg u un = Some r)
+  /\ (forall s, exists r, Setters.set_scheme dbg u s = Some r).
 Print Assumptions C04_no_panic_setters.
 
 (* ================================================================== 3. the URL parser *)
@@ -196,6 +235,13 @@ Proof.
   - intros Hns Hss. exact (C04_Parse.parse_noauth_no_panic dbg hp hpo hd ovr input sch rem Hu Es Hns Hss).
   - exact (C04_Parse.parse_no_scheme_no_panic dbg hp hpo hd ovr input Es).
 Qed.
+Check C04_parse_no_panic_partial : forall dbg hp hpo hd ovr input, usv_list input ->
+  match parse_scheme CUrlParser (input_new_trim_c0 input) with
+  | None => parse_url dbg hp hpo hd ovr None input = PErr RelativeUrlWithoutBase
+  | Some (sch, rem) =>
+      scheme_type_of sch = STNotSpecial -> inp_split_prefix_str s_ss rem = None ->
+      parse_url dbg hp hpo hd ovr None input <> PPanic
+  end.
 Print Assumptions C04_parse_no_panic_partial.
 
 (* the path state is total on the canonical shape  pre "/" seg "/" ... "/" cur  for ANY prefix (hence
@@ -208,6 +254,13 @@ Theorem C04_path_loop_total : forall pre dbg l segs cur pend hh, usv_list l -> C
     = POk (C02_PathL1.Bs pre segs' ++ last', hh, C02_Parts.cbb_rest l)
     /\ forallb C02_Path.good_seg segs' = true /\ C02_Path.good_seg last' = true.
 Proof. exact C04_Parse.loop_total. Qed.
+Check C04_path_loop_total : forall pre dbg l segs cur pend hh, usv_list l -> C02_PathL1.pend_ok pend ->
+  forallb C02_Path.good_seg segs = true -> C02_Enc.clean T_PATH cur = true -> C02_Path.no_slash cur = true ->
+  exists segs' last',
+    parse_path_loop dbg CUrlParser STNotSpecial (nlen pre) l (C02_PathL1.Bs pre segs ++ cur)
+                    (nlen (C02_PathL1.Bs pre segs)) pend hh
+    = POk (C02_PathL1.Bs pre segs' ++ last', hh, C02_Parts.cbb_rest l)
+    /\ forallb C02_Path.good_seg segs' = true /\ C02_Path.good_seg last' = true.
 Print Assumptions C04_path_loop_total.
 
 (* the authority states: parse_userinfo's second pass never runs out of characters (its
@@ -220,6 +273,8 @@ Proof.
   intros hp hpo hd ctx st se ser l.
   exact (conj (C04_Parse.parse_userinfo_no_panic st ser l) (C04_Parse.parse_host_and_port_no_panic hp hpo hd ctx st se ser l)).
 Qed.
+Check C04_no_panic_authority_states : forall hp hpo hd ctx st se ser l,
+  parse_userinfo st ser l <> PPanic /\ parse_host_and_port hp hpo hd ctx st se ser l <> PPanic.
 Print Assumptions C04_no_panic_authority_states.
 
 (* finding F-C04-7: a file: base whose last segment looks like a drive letter, joined with "../x":
@@ -234,6 +289,11 @@ Theorem C04_7_refuted : exists b,
   /\ parse_url true toy_hp toy_hp toy_hd None (Some b) w_c04_7_ref = PPanic
   /\ parse_url false toy_hp toy_hp toy_hd None (Some b) w_c04_7_ref <> PPanic.
 Proof. exists (mkUrl w_c04_7_base 4 7 7 7 HI_None None 7 None None). vm_compute. repeat split; discriminate. Qed.
+Check C04_7_refuted : exists b,
+  parse_url true toy_hp toy_hp toy_hd None None w_c04_7_base = POk b /\ wf_b b = true
+  /\ known_c04_7 (Some b) w_c04_7_ref = true
+  /\ parse_url true toy_hp toy_hp toy_hd None (Some b) w_c04_7_ref = PPanic
+  /\ parse_url false toy_hp toy_hp toy_hd None (Some b) w_c04_7_ref <> PPanic.
 Print Assumptions C04_7_refuted.
 
 (* ================================================================== 4. UTF-8 at the unsafe sites *)
@@ -241,12 +301,16 @@ Print Assumptions C04_7_refuted.
 Theorem C04_utf8_pe_encode_byte : forall b, is_byte b ->
   ascii (site_pe_encode_byte b) /\ length (site_pe_encode_byte b) = 3%nat.
 Proof. exact C04_Utf8.utf8_pe_encode_byte. Qed.
+Check C04_utf8_pe_encode_byte : forall b, is_byte b ->
+  ascii (site_pe_encode_byte b) /\ length (site_pe_encode_byte b) = 3%nat.
 Print Assumptions C04_utf8_pe_encode_byte.
 
 (* percent_encoding/src/lib.rs:163, :168 *)
 Theorem C04_utf8_pe_unchanged : forall S bs c, site_pe_unchanged S bs = Some c ->
   ascii c /\ exists rest, pe_next S bs = Some (c, rest).
 Proof. exact C04_Utf8.utf8_pe_unchanged. Qed.
+Check C04_utf8_pe_unchanged : forall S bs c, site_pe_unchanged S bs = Some c ->
+  ascii c /\ exists rest, pe_next S bs = Some (c, rest).
 Print Assumptions C04_utf8_pe_unchanged.
 
 (* percent_encoding/src/lib.rs:359 and form_urlencoded/src/lib.rs:422: the Vec reused as a String is
@@ -254,11 +318,14 @@ Print Assumptions C04_utf8_pe_unchanged.
 Theorem C04_utf8_lossy_reuse : forall bytes s, site_lossy_reuse bytes = Some s ->
   s = bytes /\ utf8_valid s = true /\ utf8_strict s = inl (utf8_lossy bytes).
 Proof. exact C04_Utf8.utf8_lossy_reuse. Qed.
+Check C04_utf8_lossy_reuse : forall bytes s, site_lossy_reuse bytes = Some s ->
+  s = bytes /\ utf8_valid s = true /\ utf8_strict s = inl (utf8_lossy bytes).
 Print Assumptions C04_utf8_lossy_reuse.
 
 (* form_urlencoded/src/lib.rs:159 *)
 Theorem C04_utf8_bser_unchanged : forall bs c, site_bser_unchanged bs = Some c -> ascii c.
 Proof. exact C04_Utf8.utf8_bser_unchanged. Qed.
+Check C04_utf8_bser_unchanged : forall bs c, site_bser_unchanged bs = Some c -> ascii c.
 Print Assumptions C04_utf8_bser_unchanged.
 
 (* url/src/parser.rs:1843 fast_u16_to_str: ASCII digits, between 1 and 5 of them (the 5-byte buffer is
@@ -267,12 +334,16 @@ Theorem C04_utf8_fast_u16_to_str : forall p, p < 65536 ->
   Forall (fun c => is_digit c = true) (site_fast_u16_to_str p) /\ ascii (site_fast_u16_to_str p)
   /\ (1 <= length (site_fast_u16_to_str p) <= 5)%nat.
 Proof. exact C04_Utf8.utf8_fast_u16_to_str. Qed.
+Check C04_utf8_fast_u16_to_str : forall p, p < 65536 ->
+  Forall (fun c => is_digit c = true) (site_fast_u16_to_str p) /\ ascii (site_fast_u16_to_str p)
+  /\ (1 <= length (site_fast_u16_to_str p) <= 5)%nat.
 Print Assumptions C04_utf8_fast_u16_to_str.
 
 (* every ASCII byte string is valid UTF-8 and decodes to itself (what turns `ascii` above into
    "valid UTF-8") *)
 Theorem C04_utf8_ascii_valid : forall t, ascii t -> utf8_valid t = true /\ utf8_strict t = inl t.
 Proof. intros t H. exact (conj (C04_Utf8.ascii_utf8_valid t H) (C04_Utf8.ascii_utf8_strict t H)). Qed.
+Check C04_utf8_ascii_valid : forall t, ascii t -> utf8_valid t = true /\ utf8_strict t = inl t.
 Print Assumptions C04_utf8_ascii_valid.
 
 (* idna/src/uts46.rs:549, :669 (Passthrough => the input is reused as &str) and :834-1024 (slices of the
@@ -287,6 +358,8 @@ Proof.
   intros A cfg ff p d deny hy k1 k2 w Hb H. destruct (C11.C11_passthrough_partial A cfg ff p d deny hy k1 k2 w Hb H) as (H1 & H2 & _).
   split; [exact H1|]. eapply Forall_impl; [|exact H2]. cbv beta. unfold Idna_Api.lower_or_dot, is_ascii. intros a [Ha|Ha]; [lia | rewrite Ha; reflexivity].
 Qed.
+Check C04_utf8_uts46_partial : forall A cfg ff p d deny hy k1 k2 w, bytes d -> Uts46.fast_tier d d = None ->
+  Uts46.process A cfg ff p d deny hy k1 k2 w = (Uts46.PPassthrough, [], []) /\ ascii d.
 Print Assumptions C04_utf8_uts46_partial.
 
 (* ================================================================== 5. cost *)
@@ -298,6 +371,9 @@ Proof.
   intros S bs. exact (conj (C04_Cost.decode_c_result bs) (conj (C04_Cost.decode_c_linear bs)
         (conj (C04_Cost.pe_chunks_c_result S bs) (C04_Cost.pe_chunks_c_linear S bs)))).
 Qed.
+Check C04_cost_percent_encoding : forall S bs,
+  fst (decode_c bs) = decode bs /\ snd (decode_c bs) <= 3 * nlen bs
+  /\ fst (pe_chunks_c S bs) = pe_chunks S bs /\ snd (pe_chunks_c S bs) <= 5 * nlen bs + 1.
 Print Assumptions C04_cost_percent_encoding.
 
 Theorem C04_cost_form_urlencoded : forall bs,
@@ -308,11 +384,17 @@ Proof.
   intros bs. exact (conj (C04_Cost.bser_chunks_c_result bs) (conj (C04_Cost.bser_chunks_c_linear bs)
         (conj (C04_Cost.parse_next_c_result bs) (C04_Cost.parse_next_c_linear bs)))).
 Qed.
+Check C04_cost_form_urlencoded : forall bs,
+  fst (bser_chunks_c bs) = FormUrlencoded.bser_chunks bs /\ snd (bser_chunks_c bs) <= 5 * nlen bs + 1
+  /\ fst (parse_next_c bs) = FormUrlencoded.parse_next bs
+  /\ snd (parse_next_c bs) <= 5 * (nlen bs - nlen (C04_Cost.pnext_rest (FormUrlencoded.parse_next bs))) + 2.
 Print Assumptions C04_cost_form_urlencoded.
 
 Theorem C04_cost_base64 : forall (W E : Type) (write : W -> list N -> W * option E) d input,
   fst (feed_c write d input) = Base64.feed write d input /\ snd (feed_c write d input) <= nlen input.
 Proof. intros W E write d input. exact (C04_Cost.feed_c_spec write input d). Qed.
+Check C04_cost_base64 : forall (W E : Type) (write : W -> list N -> W * option E) d input,
+  fst (feed_c write d input) = Base64.feed write d input /\ snd (feed_c write d input) <= nlen input.
 Print Assumptions C04_cost_base64.
 
 (* fragment, query (any encoder that at most quadruples the length, e.g. UTF-8) and opaque path states *)
@@ -329,6 +411,13 @@ Proof.
   destruct (C04_Cost.parse_query_c_linear set enc iup ser l He Hl) as [B1 B2].
   destruct (C04_Cost.parse_cbb_c_linear ctx ser l Hl) as [C1 C2]. tauto.
 Qed.
+Check C04_cost_parser_tail : forall set enc iup ctx ser l, C04_Cost.enc_ok enc -> usv_list l ->
+  fst (parse_fragment_loop_c ser [] l) = parse_fragment ser l
+  /\ snd (parse_fragment_loop_c ser [] l) <= 13 * nlen l + 1
+  /\ fst (parse_query_loop_c set enc iup ser [] l) = parse_query_loop set enc iup ser [] l
+  /\ snd (parse_query_loop_c set enc iup ser [] l) <= 13 * nlen l + 1
+  /\ fst (parse_cannot_be_a_base_path_c ctx ser l) = parse_cannot_be_a_base_path ctx ser l
+  /\ snd (parse_cannot_be_a_base_path_c ctx ser l) <= 13 * nlen l + 1.
 Print Assumptions C04_cost_parser_tail.
 
 (* the path state: the twin computes parse_path / PathSegmentsMut::extend ... *)
@@ -339,6 +428,9 @@ Proof.
   intros dbg ctx st hh ps ser l segs.
   exact (conj (C04_Cost.parse_path_c_result dbg ctx st hh ps ser l) (C04_Cost.psm_extend_loop_c_result dbg st ps segs ser)).
 Qed.
+Check C04_cost_path_result : forall dbg ctx st hh ps ser l segs,
+  fst (parse_path_c dbg ctx st hh ps ser l) = parse_path dbg ctx st hh ps ser l
+  /\ fst (psm_extend_loop_c dbg st ps ser segs) = Setters.psm_extend_loop dbg st ps ser segs.
 Print Assumptions C04_cost_path_result.
 
 (* ... and is NOT linear.  Full statement (false on the pinned code): a linear bound in the length of
@@ -353,12 +445,19 @@ Theorem C04_8_dotdots_cost : forall pre dbg, C02_PathL1.no_byte 47 pre = true ->
   <= snd (parse_path_loop_c dbg CUrlParser STNotSpecial (nlen pre) (C04_CostPath.dotdots m) (pre ++ [47])
                             (nlen (pre ++ [47])) [] hh).
 Proof. exact C04_CostPath.dotdots_cost. Qed.
+Check C04_8_dotdots_cost : forall pre dbg, C02_PathL1.no_byte 47 pre = true -> forall m hh,
+  N.of_nat m * (nlen pre + 1)
+  <= snd (parse_path_loop_c dbg CUrlParser STNotSpecial (nlen pre) (C04_CostPath.dotdots m) (pre ++ [47])
+                            (nlen (pre ++ [47])) [] hh).
 Print Assumptions C04_8_dotdots_cost.
 (* ... hence no linear bound holds *)
 Theorem C04_8_refuted : forall a b : N, exists pre l dbg hh, usv_list l /\
   a * (nlen (pre ++ [47]) + nlen l) + b
   < snd (parse_path_loop_c dbg CUrlParser STNotSpecial (nlen pre) l (pre ++ [47]) (nlen (pre ++ [47])) [] hh).
 Proof. exact C04_CostPath.path_cost_not_linear. Qed.
+Check C04_8_refuted : forall a b : N, exists pre l dbg hh, usv_list l /\
+  a * (nlen (pre ++ [47]) + nlen l) + b
+  < snd (parse_path_loop_c dbg CUrlParser STNotSpecial (nlen pre) l (pre ++ [47]) (nlen (pre ++ [47])) [] hh).
 Print Assumptions C04_8_refuted.
 
 (* finding F-C04-6: n calls of push("a") on file:/// cost at least n^2 steps (the file branch of
@@ -376,6 +475,15 @@ Theorem C04_6_refuted :
       /\ C04_CostPath.pushes_cost STSpecialNotFile 8 C04_CostPath.s_http_root 100 <= 12 * 100 + 1
       /\ C04_CostPath.pushes_cost STSpecialNotFile 8 C04_CostPath.s_http_root 200 <= 12 * 200 + 1).
 Proof. exact (conj C04_CostPath.pushes_file_quadratic_50_100_200 C04_CostPath.pushes_http_linear_50_100_200). Qed.
+Check C04_6_refuted :
+  (50 * 50 <= C04_CostPath.pushes_cost STFile 7 C04_CostPath.s_file_root 50
+   /\ 100 * 100 <= C04_CostPath.pushes_cost STFile 7 C04_CostPath.s_file_root 100
+   /\ 200 * 200 <= C04_CostPath.pushes_cost STFile 7 C04_CostPath.s_file_root 200
+   /\ 3 * C04_CostPath.pushes_cost STFile 7 C04_CostPath.s_file_root 100
+      <= C04_CostPath.pushes_cost STFile 7 C04_CostPath.s_file_root 200)
+  /\ (C04_CostPath.pushes_cost STSpecialNotFile 8 C04_CostPath.s_http_root 50 <= 12 * 50 + 1
+      /\ C04_CostPath.pushes_cost STSpecialNotFile 8 C04_CostPath.s_http_root 100 <= 12 * 100 + 1
+      /\ C04_CostPath.pushes_cost STSpecialNotFile 8 C04_CostPath.s_http_root 200 <= 12 * 200 + 1).
 Print Assumptions C04_6_refuted.
 
 (* ================================================================== 6. the Punycode cap *)
@@ -396,6 +504,14 @@ Proof.
   - intros cfg s Hu Hl. exact (proj1 (C13.C13_internal cfg s Hu Hl)).
   - exact C04_Puny.check_label_cap.
 Qed.
+Check C04_punycode_cap :
+  T_IDNA_DECODE_MAX = 2000 /\ T_IDNA_ENCODE_MAX = 1000
+  /\ (forall cfg s, usv_list s -> (length s <= 1000)%nat ->
+        Punycode.encode_internal cfg s = Punycode.encode cfg s)
+  /\ (forall A cfg ff hy lab he f1 f2 lab' he',
+        Uts46.check_label A cfg ff hy lab he f1 f2 = Uts46.SOk (lab', he') ->
+        Uts46.is_ascii_l lab' = false -> Uts46.PUNYCODE_ENCODE_MAX_INPUT_LENGTH < Uts46.len lab' ->
+        ff = false /\ he' = true).
 Print Assumptions C04_punycode_cap.
 
 (* ================================================================== non-vacuity *)
